@@ -439,19 +439,35 @@ def make_block_contracts(cls):
                 r0 = vsub(BS.rhs, mv(Lm(i), Bl(d)))
                 r1 = vsub(BS.rhs, mv(Lm(i), mv(Dm(i - 1), rv(i - 1, d))))
                 corr = mv(Um(i), Br(d))
+                # both one-sided inverse relations of the cached pivot inverse (the adjoint solve of C05 uses the left one)
+                first_l = mm(Dm(i), BS.D)
+                later_l = mm(Dm(i), msub(BS.D, mm(Lm(i), mm(Dm(i - 1), Um(i - 1)))))
                 if case is None:
-                    out += [implies(i.eq(0), x) for x in meq(first, ident(b))]
-                    out += [implies(i > 0, x) for x in meq(later, ident(b))]
+                    out += [implies(i.eq(0), x) for x in meq(first, ident(b)) + meq(first_l, ident(b))]
+                    out += [implies(i > 0, x) for x in meq(later, ident(b)) + meq(later_l, ident(b))]
                     for r in range(b):
                         base = ite(i.eq(0), r0[r], r1[r])
                         out.append(rv(i, d)[r].eq(base - ite(i.eq(nb - 1), corr[r], 0)))
                     out += [implies(i > 0, x) for x in meq(mat_of(DTL, i - 1, b), tr_(mm(Lm(i), Dm(i - 1))))]
                 else:
                     f, l = case
-                    out += meq(first if f else later, ident(b))
+                    out += meq(first if f else later, ident(b)) + meq(first_l if f else later_l, ident(b))
                     for r in range(b):
                         out.append(rv(i, d)[r].eq((r0[r] if f else r1[r]) - (corr[r] if l else 0)))
                 return out
+
+            def factor_facts(i):
+                # the matrix part of fwd_facts: what the gradient proofs (C05) require of the cached blocks
+                BS = BlockSpec(S, cls, i, DS[0])
+                i = E.const(i)
+                out = meq(Lm(i), BS.L) + meq(Um(i), BS.U)
+                Dt = msub(BS.D, mm(Lm(i), mm(Dm(i - 1), Um(i - 1))))
+                out += [implies(i.eq(0), x) for x in meq(mm(Dm(i), BS.D), ident(b))]
+                out += [implies(i > 0, x) for x in meq(mm(Dm(i), Dt), ident(b))]
+                out += [implies(i > 0, x) for x in meq(mat_of(DTL, i - 1, b), tr_(mm(Lm(i), Dm(i - 1))))]
+                return out
+            S.ensures(S.forall(0, nb, factor_facts, inst=[S.sk(0), S.sk(0) - 1]), 'cached_blocks_factorise_the_optimality_system')
+            S.ensures(implies(nb > 0, Lc.R.eq(nb) & Uc.R.eq(nb) & Dinv.R.eq(nb)), 'one_cached_block_per_interior_knot')
 
             def bwd_fact(i, d, last=None):
                 i = E.const(i)
@@ -467,7 +483,7 @@ def make_block_contracts(cls):
                 Dloc = [[L.D.at(r, c) for c in range(b)] for r in range(b)]
                 Dt = BS.D if case == 'first' else msub(BS.D, mm(Lm(i), mm(Dm(i - 1), Um(i - 1))))
                 out = [x.eq(y) for x, y in zip(flat(Dloc), flat(Dt))]
-                out += meq(mm(Dloc, Dm(i)), ident(b))
+                out += meq(mm(Dloc, Dm(i)), ident(b)) + meq(mm(Dm(i), Dloc), ident(b))
                 return out
             sizes = lambda: conj([Lc.R.eq(nb), Uc.R.eq(nb), Dinv.R.eq(nb), rhs.R.eq(nb * b)] + [X.R.eq(n_pts) for X in Xout])
             boundary_rows = lambda: conj([X.at(0, d).eq(Bl(d)[j]) for j, X in enumerate(Xout) for d in range(D)] +
